@@ -404,6 +404,8 @@ def rule_zero_below_sp(ctx):
 
 
 def run(ctx):
+    from rules import preds
+    preds.run(ctx, PROPERTY, ['is_executable', 'contains_address'])   # the opaque predicates these rules lean on, against oracle tables
     # the `inside an executable mapping` test of the sanitiser resolves the word with find_mapping_no_bias: it has to be the order-independent scan (the mapping list is not address-sorted)
     from rules import c06
     c06.rule_find_mapping(ctx, R="C12/exec-mapping-lookup", fn="find_mapping_no_bias", system_range=True)
